@@ -872,6 +872,10 @@ func (a *AMF) onULNASTransport(u *UE, plain []byte) [][]byte {
 	if psi < 1 || psi > 15 {
 		a.violate("session/psi-out-of-range", "PDU session identity %d is outside 1..15 (TS 24.007 11.2.3.1b)", psi)
 	}
+	if (sm[3] == 0xc1 || sm[3] == 0xd1) && (sm[2] == 0 || sm[2] == 255) {
+		// UE-requested procedures carry an assigned procedure transaction identity (TS 24.007 11.2.3.1a: 0 = none assigned, 255 reserved)
+		a.violate("session/pti-not-assigned-or-reserved", "5GSM message %#x from %s with procedure transaction identity %d (must be 1..254)", sm[3], u.Supi, sm[2])
+	}
 	switch sm[3] {
 	case 0xc1: // establishment request
 		if u.Sess != seNone {
